@@ -85,6 +85,7 @@ def check(rep, model, tier):
     common.roview(rep, model, ['recompute_edges', 'recompute_edge', 'detect_bursts_cycles'])
     rep.floor('edge definitions compared', n, 14)
     obj_front_end(rep, model)
+    centre_known(rep, model)
 
 
 def obj_front_end(rep, model):
@@ -121,3 +122,24 @@ def obj_front_end(rep, model):
 def _doc_defaults(rep, model):
     from . import common as _c
     _c.doc_defaults(rep, model, ['recompute_edges'])
+
+
+def centre_known(rep, model):
+    """the edge values are one-sided *for the table's centring* also when the table carries no sample_ columns (return_samples=False)"""
+    rep.rule('CENTRE-KNOWN', 'on a cycle table without sample_ columns (compute_features(..., return_samples=False), Bycycle(return_samples=False)) the directional amplitude '
+                             'consistency used by recompute_edge still pairs the flanks of the table\'s own centring: for a peak-centred table the rise of a cycle follows '
+                             'the previous decay, for a trough-centred one the decay follows the previous rise')
+    fn = model.find('compute_amp_consistency')
+    site = f'{fn.path}:{fn.node.lineno} compute_amp_consistency (reached from recompute_edge)'
+    for centre in ('peak', 'trough'):
+        S = E.abstract_table('S', E.BURST_COLS['cycles'] + ['is_burst'] + E.SHAPE_COLS)      # what drop_samples_df leaves
+        for d in ('next', 'last'):
+            impl, ctx = E.run(model, fn.qual, {fn.params[0]: S, 'direction': C(d)})
+            spec, _ = E.spec('amp_consistency', {'S': S, 'direction': C(d), 'centre': C(centre)})
+            inst = f'{centre}-centred table without sample columns:{d}'
+            if T.strip_nd(impl) == T.strip_nd(spec):
+                rep.ok('CENTRE-KNOWN', inst, site, found='flanks paired for this centring')
+            else:
+                rep.violation('CENTRE-KNOWN', inst, site, expected=f'the {centre}-centred pairing (sa/refspec/burst.py amp_consistency)',
+                              found='the pairing of the other centring: the branch is chosen by the presence of a sample_peak column, which such a table does not have',
+                              key=f'CENTRE-KNOWN@{centre}:{d}')
